@@ -24,6 +24,7 @@ class PROP(Prop):
     title = "remote_exec plumbing: refusal before anything is sent, exactly one CHANNEL_EXEC frame for the returned channel; _source_of_function check order and line arithmetic; executetask: namespace, _executing window, channel closed exactly once on every exit; init_popen_io over an fd table"
     design_ref = "DESIGN.md section 4, C06"
     targets = [f"{GW}:Gateway.remote_exec#string", f"{GW}:Gateway.remote_exec#function", f"{GW}:Gateway.remote_exec#module", f"{GW}:_source_of_function", f"{GB}:init_popen_io",
+               f"{GB}:Channel.close",      # an explicit close from inside the body is refused, with or without an error text
                f"worker::{GB}:WorkerGateway.executetask", f"worker::{GB}:WorkerGateway._local_schedulexec"]
     heavy = {f"worker::{GB}:WorkerGateway.executetask": 8}
     extra_worlds = {"worker": worker_world}
